@@ -291,3 +291,51 @@ def fast_df(on=True):
     if _real_pd[0] is None:
         _real_pd[0] = pp.pd
     pp.pd = _LightPd() if on else _real_pd[0]
+
+
+# ----------------------------------------------------------------------------- queries on a finished election (C09)
+QUERY_NAMES = ["get_profile", "get_step", "get_elected", "get_eliminated", "get_remaining", "get_ranking", "get_status_df", "len"]
+
+
+def _snap(e, inv):
+    return [state_json(s, None, -1, inv=inv) for s in e.election_states]
+
+
+def _blank_query(name, r):
+    return {"ev": "Query", "name": name, "r": r, "error": "", "same": True, "groups": [], "order": [], "status": [], "len": 0,
+            "bag": [], "cands": [], "rescored": [], "hasrescore": False, "state": _empty_round()}
+
+
+def run_queries(e, history, inv):
+    """apply a query history to a finished election; one Query event per call plus a final Snapshot of election_states"""
+    events = []
+    for name, r in history:
+        q = _blank_query(name, r)
+        before = _snap(e, inv)
+        try:
+            with quiet():
+                if name == "len":
+                    q["len"] = len(e)
+                elif name in ("get_elected", "get_eliminated", "get_remaining", "get_ranking"):
+                    q["groups"] = groups(getattr(e, name)(r), inv)
+                elif name == "get_status_df":
+                    df = e.get_status_df(r)
+                    q["order"] = [inv[c] for c in df.index]
+                    q["status"] = sorted([inv[c], str(df.at[c, "Status"]), int(df.at[c, "Round"])] for c in df.index)
+                else:
+                    if name == "get_profile":
+                        p = e.get_profile(r)
+                    else:
+                        p, st = e.get_step(r)
+                        q["state"] = state_json(st, p, -1, inv=inv)
+                    q["bag"] = bag_json(p, inv)
+                    q["cands"] = sorted(inv[c] for c in p.candidates)
+                    if e.score_function is not None:
+                        q["hasrescore"] = True
+                        q["rescored"] = scores_json(e.score_function(p), inv) if len(p.candidates) else []
+        except Exception as ex:  # noqa
+            q["error"] = type(ex).__name__
+        q["same"] = before == _snap(e, inv)
+        events.append(q)
+    events.append({"ev": "Snapshot", "rounds": _snap(e, inv)})
+    return events
